@@ -37,6 +37,10 @@ TFault ==
          [] f.kind = "restart"  -> Restart(f.node)
          [] f.kind = "stop"     -> Stop(f.node)
          [] f.kind = "start"    -> Start(f.node)
+         [] f.kind = "unfind"   -> IF up["wat"] = "down"       \* (logged, but there is no application to make the call)
+                                   THEN /\ obs' = <<FaultEv("unfind", "wat")>> /\ nf' = nf + 1
+                                        /\ UNCHANGED <<nd, up, net, lossy, pf, clk, fresh>>
+                                   ELSE Unfind
          [] f.kind = "loss_on"  -> LossOn
          [] f.kind = "loss_off" -> LossOff
          [] f.kind = "delay"    -> OneShot /\ pf' = <<"delay", f.d>>
